@@ -234,6 +234,24 @@ Theorem C02_call_sequence_checked : forall env kids clid meth ms a kw,
 Proof. exact call_stream_checked. Qed.
 Print Assumptions C02_call_sequence_checked.
 
+(* ... when the RemoteInterface of the addressed object DERIVES from other RemoteInterfaces (layers: the methods each
+   interface of its __iro__ declares itself, the interface first, then its bases in resolution order): the table in force
+   is iface_table layers, and the schema that governs a call is the declaration of the MOST DERIVED interface that declares
+   the name -- an override in a sub-interface wins over the declaration it overrides, an inherited method keeps the
+   schema of the base that declares it.  (CallUnslicer: self.interface.get(methodname), translated; zope's resolution
+   order is compared with the model on inheritance chains on every run.) *)
+Theorem C02_call_sequence_checked_inherited : forall env kids clid n ms a kw t layers,
+  0 <= clid -> assocZ clid (be_objs env) = Some t -> t_iface t = Some (iface_table layers) ->
+  recv_call_stream env kids = QInvoke clid (Some n) ms a kw ->
+  most_derived layers n = Some ms /\ checkAllArgs ms a kw = Ok tt.
+Proof. exact call_stream_checked_inherited. Qed.
+Print Assumptions C02_call_sequence_checked_inherited.
+
+Theorem C02_override_wins : forall pre l post n ms,
+  (forall l', In l' pre -> assocZ n l' = None) -> assocZ n l = Some ms -> most_derived (pre ++ l :: post) n = Some ms.
+Proof. exact most_derived_override. Qed.
+Print Assumptions C02_override_wins.
+
 (* C02_one_call_violation for complete call sequences addressed to a method of non-strict token constraints *)
 Theorem C02_call_sequence_one_violation : forall env r c mname pos kwsb t tbl ms,
   (negb (r =? 0) && memZ r (be_active env)) = false -> 0 <= c -> utf8_valid mname = true ->
